@@ -21,7 +21,9 @@ ASSUMPTIONS = ['notify_waiters() of the deletion reaches exactly the Notified fu
 
 def deleted_reply(ip, sender, req):
     """after the deletion the actor, if still alive, answers every pull with an empty batch"""
-    txs = find_values(req, OneshotTx)
+    from framework import responder_of
+    tx0 = responder_of(req)
+    txs = [tx0] if tx0 is not None else []
     if txs:
         replies = getattr(ip.path, 'replies', {})
         replies[txs[0].cid] = ok(Seq.empty())
